@@ -464,10 +464,17 @@ func c08Server(s *sim.Sim, p *sim.Params, providers bool) {
 	}
 	sample = append(sample, fmt.Sprintf("mode=server providers=%v compiled=%v", providers, sv.compiled))
 	ntasks := 2 + s.Choose(sim.SWork, 7)
+	maxReq := 4
+	if p.Tier == "thorough" && s.Choose(sim.SWork, 3) == 0 {
+		// the thorough tier also explores wider and longer runs
+		ntasks = 6 + s.Choose(sim.SWork, 8)
+		maxReq = 7
+		s.SetLimits(4_000_000, 0)
+	}
 	plans := make([][]simReq, ntasks)
 	nuniq := 0
 	for ti := range plans {
-		n := 1 + s.Choose(sim.SWork, 4)
+		n := 1 + s.Choose(sim.SWork, maxReq)
 		for k := 0; k < n; k++ {
 			var r simReq
 			if !providers && interp {
